@@ -76,7 +76,7 @@ def gen_routes(app, model_path, model_name, crud, route):
         map(
             itemgetter(0),
             filter(
-                lambda param: param[1]["doc"].startswith("[PK]"),
+                lambda param: (param[1].get("doc") or "").startswith("[PK]"),
                 sqlalchemy_ir["params"].items(),
             ),
         ),
